@@ -8,8 +8,8 @@ git -C /repo apply "$patch" || { echo "patch does not apply"; exit 2; }
 trap 'git -C /repo checkout -- . ' EXIT
 for id in "$@"; do
   out=$(timeout ${CHECK_TIMEOUT:-600} ./check "$id" "${TIER:-quick}" 2>&1); code=$?
-  if [ $code -eq 1 ] && echo "$out" | grep -q "^VIOLATION property=$id"; then
+  if [ $code -eq 1 ] && echo "$out" | grep -q "VIOLATION property=$id"; then
      echo "DETECTED $id: $(echo "$out" | grep -m1 'identity:' | sed 's/^ *//')"
   elif [ $code -eq 0 ]; then echo "missed   $id"
-  else echo "MACHINERY($code) $id: $(echo "$out" | tail -3 | tr '\n' ' ')"; fi
+  else echo "MACHINERY($code) $id: $(echo "$out" | grep -v "^panicked" | tail -6 | tr "\n" " ")"; fi
 done
